@@ -1,6 +1,7 @@
 package c20
 
 import (
+	"os"
 	"strings"
 
 	"pgregory.net/rapid"
@@ -14,8 +15,11 @@ var safeWords = []string{"alpha", "beta", "Gamma", "delta", "x1", "42", "Lorem",
 // code block lines may carry any punctuation: fenced content is literal
 var codeLines = []string{"x := 1", "a*b + c_d", "# not a heading", "- not a list", "if (a < b) { return }", "print(\"hi\")", "1. one", "| a | b |", "**x**", "plain words", "tab\there"}
 
-// hostile classes
-var mdWords = []string{"*", "**", "_", "`", "#", "# h", "-", "+ x", "1.", "2) z", ">", "[a](b)", "![i](u)", "~~", "$x$", "\\", "---", "===", "<b>", "&amp;", "a*b*c", "snake_case_name", "``", "[^1]", "|", "www.example.com"}
+// code block lines that look like fences or contain backtick runs (the fence has to be longer), and other block syntax
+var fenceLines = []string{"```", "````", "`````", "~~~", "```go", "``` x", "a ``` b", "x ```` y", "`", "``", "`a`", "``a``", "~~~~", "    indented", "\\", "$$", "---", "===", "<div>", "> q", "[a]: u", "&amp; \\* <b>", "``` ```", "a`", "`a"}
+
+// code-font run texts around backticks (the delimiting backtick string has to be longer than any inside)
+var tickWords = []string{"`", "``", "```", "a`b", "`a", "a`", "`a`", "``a``", "a``b", "a ` b", "` `", "a```b", "`` `"}
 
 func words(t *rapid.T, label string, min, max int) string {
 	n := rapid.IntRange(min, max).Draw(t, label+"n")
@@ -26,40 +30,67 @@ func words(t *rapid.T, label string, min, max int) string {
 	return strings.Join(ws, " ")
 }
 
-func hostileWords(t *rapid.T, label string) string {
+// hostileToken draws one token: from the classes chosen for the case (2 of 3) or from any class.
+func (g *gctx) hostileToken(label string) string {
+	t := g.t
+	cls := g.hc
+	if len(cls) == 0 || rapid.IntRange(0, 2).Draw(t, label+"any") == 0 {
+		cls = hostileClassNames()
+	}
+	return rapid.SampledFrom(hostileClasses[rapid.SampledFrom(cls).Draw(t, label+"c")]).Draw(t, label+"m")
+}
+
+// hostileWords: 1-3 words, each a hostile token (2 of 3) or a safe word; a token may be glued to a safe word
+// (before, after, inside) so that it is met at word and run edges as well as on its own.
+func (g *gctx) hostileWords(label string) string {
+	t := g.t
 	n := rapid.IntRange(1, 3).Draw(t, label+"n")
 	ws := make([]string, n)
 	for i := range ws {
 		if rapid.IntRange(0, 2).Draw(t, label+"k") == 0 {
 			ws[i] = rapid.SampledFrom(safeWords).Draw(t, label+"s")
-		} else {
-			ws[i] = rapid.SampledFrom(mdWords).Draw(t, label+"m")
+			continue
 		}
+		tok := g.hostileToken(label)
+		switch rapid.IntRange(0, 7).Draw(t, label+"glue") {
+		case 0:
+			tok = rapid.SampledFrom(safeWords).Draw(t, label+"gl") + tok
+		case 1:
+			tok = tok + rapid.SampledFrom(safeWords).Draw(t, label+"gr")
+		case 2:
+			tok = "x" + tok + "y"
+		}
+		ws[i] = tok
 	}
 	return strings.Join(ws, " ")
 }
 
-// benign features: shapes whose only deviation is the exactly predicted effect of an open finding
-// (blanks at run edges and code+emphasis runs belong here since the exporter was repaired for them)
-var benignFeats = []string{"list", "list", "list", "code", "code", "empty", "plainhdr", "multifmt", "deephead", "edge", "edge", "codecombo"}
-var wildFeats = []string{"md", "adjacent", "uscore", "pipe", "nogfm", "meta", "wrapfmt"}
+// benign features: shapes that need no hostile text - lists, code blocks, empty paragraphs, plain table headers,
+// multi-format and code+emphasis runs, Heading7-9, blanks at run edges, formatted runs that touch each other
+// ("adjacent") or a plain neighbour without a blank in between ("touch"), wrapped formatted text
+var benignFeats = []string{"list", "list", "list", "code", "code", "empty", "plainhdr", "multifmt", "deephead", "edge", "edge", "codecombo", "adjacent", "adjacent", "touch", "touch", "wrapfmt"}
+
+// wild features: output shapes that are open findings as a whole
+var wildFeats = []string{"nogfm", "nogfm", "meta"}
 
 // blanks for run edges: ASCII, and the Unicode blanks CommonMark counts as whitespace for the flanking rules
 // (a delimiter run next to one of them is not flanking, exactly as next to a space)
 var edgeBlanks = []string{" ", "", "\u00a0", "  ", "\t", "\u3000", "\u2003", "\u2002", "\u2009", "\u1680", "\u200a", "\u2004", "\u2005", "\u2006", "\u2007", "\u2008", " \u00a0"}
 
 type gctx struct {
-	t    *rapid.T
-	f    map[string]bool
-	o    Opts
-	open map[string]bool
+	t  *rapid.T
+	f  map[string]bool
+	o  Opts
+	hc []string // hostile classes chosen for the case
+	hp int      // a text is hostile with probability 1/hp
 }
 
 func genCase(t *rapid.T) Case {
-	g := &gctx{t: t, f: map[string]bool{}}
-	// rapid favours the first elements of a sample list: the modes are interleaved (measured: ~45/37/18 %)
-	mode := rapid.SampledFrom([]string{"clean", "benign", "wild", "benign", "clean", "benign", "clean", "wild", "benign", "clean",
-		"benign", "clean", "wild", "clean", "benign", "clean", "benign", "clean", "wild", "clean"}).Draw(t, "mode")
+	g := &gctx{t: t, f: map[string]bool{}, hp: 3}
+	// rapid favours the first elements of a sample list: the modes are interleaved
+	// (hostile 8, clean 5, benign 5, wild 2 of 20)
+	mode := rapid.SampledFrom([]string{"hostile", "clean", "benign", "hostile", "benign", "clean", "wild", "hostile", "benign", "hostile",
+		"clean", "hostile", "benign", "hostile", "clean", "hostile", "wild", "benign", "hostile", "clean"}).Draw(t, "mode")
 	var feats []string
 	pickFrom := func(pool []string, n int, label string) {
 		for i := 0; i < n; i++ {
@@ -70,12 +101,32 @@ func genCase(t *rapid.T) Case {
 			}
 		}
 	}
+	hostile := func() {
+		g.f["md"] = true
+		feats = append(feats, "md")
+		g.hp = rapid.SampledFrom([]int{2, 3, 2, 1}).Draw(t, "hp")
+		names := hostileClassNames()
+		for i, n := 0, rapid.IntRange(1, 3).Draw(t, "nhc"); i < n; i++ {
+			x := rapid.SampledFrom(names).Draw(t, "hc")
+			if !g.f["h:"+x] {
+				g.f["h:"+x] = true
+				g.hc = append(g.hc, x)
+				feats = append(feats, "h:"+x)
+			}
+		}
+	}
 	switch mode {
 	case "benign":
 		pickFrom(benignFeats, rapid.IntRange(1, 3).Draw(t, "nb"), "bf")
+	case "hostile":
+		hostile()
+		pickFrom(benignFeats, rapid.IntRange(0, 3).Draw(t, "nb"), "bf")
 	case "wild":
-		pickFrom(wildFeats, rapid.IntRange(1, 2).Draw(t, "nw"), "wf")
-		pickFrom(benignFeats, rapid.IntRange(0, 1).Draw(t, "nb"), "bf")
+		pickFrom(wildFeats, 1, "wf")
+		pickFrom(benignFeats, rapid.IntRange(0, 2).Draw(t, "nb"), "bf")
+		if rapid.Bool().Draw(t, "wildmd") {
+			hostile()
+		}
 	}
 	// how the options reach the exporter, and which other exports happen between the judged ones
 	via := rapid.SampledFrom([]string{"", "", "default", "", "", "nilexp", "", "", "hq", "", "", ""}).Draw(t, "via")
@@ -98,7 +149,7 @@ func genCase(t *rapid.T) Case {
 		hist = append(hist, st)
 	}
 	g.o = Opts{
-		GFM:    !g.f["nogfm"] && rapid.SampledFrom([]bool{true, true, false, true, true, true}).Draw(t, "gfm"),
+		GFM:    !g.f["nogfm"] && (mode == "wild" || rapid.SampledFrom([]bool{true, true, false, true, true, true, true, true}).Draw(t, "gfm")),
 		Setext: rapid.Bool().Draw(t, "setext"),
 		Bullet: rapid.SampledFrom([]string{"-", "*", "+"}).Draw(t, "bullet"),
 		Emph:   rapid.SampledFrom([]string{"*", "_"}).Draw(t, "emph"),
@@ -141,28 +192,30 @@ func genCase(t *rapid.T) Case {
 	return Case{Mode: mode, Feats: feats, Blocks: blocks, O: g.o, Via: via, Hist: hist}
 }
 
+// txt: text of a heading, item, quote, cell or plain run: safe words, or (feature md) hostile words.
+func (g *gctx) txt(label string, min, max int) string {
+	if g.f["md"] && rapid.IntRange(1, g.hp).Draw(g.t, label+"h") == 1 {
+		return g.hostileWords(label)
+	}
+	return words(g.t, label, min, max)
+}
+
 func (g *gctx) block(i int) Block {
 	t := g.t
 	kinds := []string{"h", "h", "p", "p", "p", "p", "q", "table", "table", "table"}
-	if g.f["list"] {
+	if g.f["list"] || g.f["md"] {
 		kinds = append(kinds, "li", "li", "li", "li", "li")
 	}
-	if g.f["code"] {
+	if g.f["code"] || g.f["md"] {
 		kinds = append(kinds, "code", "code", "code", "code")
 	}
 	if g.f["empty"] {
 		kinds = append(kinds, "empty", "empty", "empty")
 	}
 	k := rapid.SampledFrom(kinds).Draw(t, "kind")
-	txt := func(label string, min, max int) string {
-		if g.f["md"] && rapid.IntRange(0, 2).Draw(t, label+"h") == 0 {
-			return hostileWords(t, label)
-		}
-		return words(t, label, min, max)
-	}
 	switch k {
 	case "h":
-		s := txt("ht", 1, 3)
+		s := g.txt("ht", 1, 3)
 		if g.f["edge"] && rapid.IntRange(0, 3).Draw(t, "hedge") == 0 {
 			s = rapid.SampledFrom(edgeBlanks).Draw(t, "hel") + s + rapid.SampledFrom(edgeBlanks).Draw(t, "her")
 		}
@@ -172,11 +225,16 @@ func (g *gctx) block(i int) Block {
 		}
 		return Block{K: "h", Level: rapid.IntRange(1, maxLevel).Draw(t, "level"), T: s}
 	case "q":
-		return Block{K: "q", T: txt("qt", 1, 4)}
+		return Block{K: "q", T: g.txt("qt", 1, 4)}
 	case "li":
-		return Block{K: "li", Ord: rapid.IntRange(0, 2).Draw(t, "ord") == 0, T: txt("lt", 1, 3)}
+		return Block{K: "li", Ord: rapid.IntRange(0, 2).Draw(t, "ord") == 0, T: g.txt("lt", 1, 3)}
 	case "code":
-		if rapid.Bool().Draw(t, "codepunct") {
+		switch c := rapid.IntRange(0, 5).Draw(t, "codek"); {
+		case g.f["md"] && c <= 1:
+			return Block{K: "code", T: rapid.SampledFrom(fenceLines).Draw(t, "cf")}
+		case g.f["md"] && c == 2:
+			return Block{K: "code", T: g.hostileWords("chw")}
+		case c <= 3:
 			return Block{K: "code", T: rapid.SampledFrom(codeLines).Draw(t, "cl")}
 		}
 		return Block{K: "code", T: words(t, "ct", 1, 3)}
@@ -192,10 +250,10 @@ func (g *gctx) block(i int) Block {
 				switch {
 				case rapid.IntRange(0, 5).Draw(t, "cempty") == 0:
 					cells[r][c] = ""
-				case g.f["pipe"] && rapid.IntRange(0, 3).Draw(t, "cpipe") == 0:
-					cells[r][c] = rapid.SampledFrom([]string{"a|b", "|", "x | y", "a\\|b"}).Draw(t, "cp")
+				case g.f["md"] && rapid.IntRange(0, 7).Draw(t, "cpipe") == 0:
+					cells[r][c] = rapid.SampledFrom(hostileClasses["pipe"]).Draw(t, "cp")
 				default:
-					cells[r][c] = txt("cell", 1, 2)
+					cells[r][c] = g.txt("cell", 1, 2)
 				}
 			}
 		}
@@ -241,17 +299,17 @@ func (g *gctx) para() Block {
 					r.C = true
 				}
 			}
-			maxw := 3
-			if g.o.Wrap && !g.f["wrapfmt"] {
-				maxw = 1 // a wrapped line break inside a formatted run is an open finding's class
-			}
 			if g.f["wrapfmt"] {
 				r.T = words(t, "fw", 2, 4)
 			} else {
-				r.T = words(t, "fw", 1, maxw)
+				r.T = words(t, "fw", 1, 3)
 			}
-			if g.f["md"] && rapid.IntRange(0, 2).Draw(t, "fh") == 0 {
-				r.T = hostileWords(t, "fhw")
+			if g.f["md"] && rapid.IntRange(1, g.hp).Draw(t, "fh") == 1 {
+				if r.C && rapid.IntRange(0, 2).Draw(t, "tick") == 0 {
+					r.T = rapid.SampledFrom(tickWords).Draw(t, "tw")
+				} else {
+					r.T = g.hostileWords("fhw")
+				}
 			}
 			if g.f["edge"] && rapid.IntRange(0, 1).Draw(t, "fe") == 0 {
 				r.T = rapid.SampledFrom(edgeBlanks).Draw(t, "fel") + r.T + rapid.SampledFrom(edgeBlanks).Draw(t, "fer")
@@ -260,31 +318,28 @@ func (g *gctx) para() Block {
 			if rapid.IntRange(0, 19).Draw(t, "emptyrun") == 0 {
 				r.T = ""
 			} else {
-				r.T = words(t, "pw", 1, 4)
-				if g.f["md"] && rapid.IntRange(0, 2).Draw(t, "ph") == 0 {
-					r.T = hostileWords(t, "phw")
-				}
+				r.T = g.txt("pw", 1, 4)
 			}
 		}
 		prevFmt = formatted || (r.T == "" && prevFmt) // an empty run writes nothing: its neighbours touch
 		runs = append(runs, r)
 	}
-	// blanks at the edges of plain runs that have a neighbour (never at the paragraph's own edges)
+	// blanks at the edges of plain runs that have a neighbour (never at the paragraph's own edges); without
+	// the feature "touch" a plain run touches its neighbour in 1 of 6 cases, with it in 2 of 3
+	blankOf := 5
+	if g.f["touch"] {
+		blankOf = 2
+	}
 	for i := range runs {
 		if runs[i].mask() != 0 || runs[i].T == "" {
 			continue
 		}
-		needL := i > 0 && g.o.Emph == "_" && !g.f["uscore"]
-		needR := i+1 < len(runs) && g.o.Emph == "_" && !g.f["uscore"]
-		if i > 0 && firstNonEmptyBefore(runs, i) && (needL || rapid.IntRange(0, 2).Draw(t, "bl") > 0) {
+		if i > 0 && firstNonEmptyBefore(runs, i) && rapid.IntRange(0, blankOf).Draw(t, "bl") > 0 != g.f["touch"] {
 			runs[i].T = " " + runs[i].T
 		}
-		if i+1 < len(runs) && nonEmptyAfter(runs, i) && (needR || rapid.IntRange(0, 2).Draw(t, "br") > 0) {
+		if i+1 < len(runs) && nonEmptyAfter(runs, i) && rapid.IntRange(0, blankOf).Draw(t, "br") > 0 != g.f["touch"] {
 			runs[i].T = runs[i].T + " "
 		}
-	}
-	if g.o.Emph == "_" && !g.f["uscore"] {
-		runs = fixUnderscore(runs)
 	}
 	return Block{K: "p", Runs: runs}
 }
@@ -307,27 +362,11 @@ func nonEmptyAfter(rs []Run, i int) bool {
 	return false
 }
 
-// fixUnderscore removes empty plain runs that would let an italic run touch a word character
-// (empty runs write nothing, so the neighbours of an italic run are the nearest non-empty runs).
-func fixUnderscore(rs []Run) []Run {
-	var out []Run
-	for _, r := range rs {
-		if r.T == "" && r.mask() == 0 {
-			continue
-		}
-		out = append(out, r)
-	}
-	if len(out) == 0 {
-		return rs[:1]
-	}
-	return out
-}
-
 // fixedCases: hand-written cases every run executes first.
 func fixedCases() []Case {
 	def := Opts{GFM: true, Bullet: "-", Emph: "*", MaxLen: 80}
 	tbl := Block{K: "table", Cells: [][]string{{"a", "b"}, {"c", ""}}, HdrBold: true}
-	return []Case{
+	cs := []Case{
 		{Mode: "fixed", Blocks: []Block{{K: "h", Level: 1, T: "Title"}, {K: "p", Runs: []Run{{T: "one "}, {T: "two", B: true}, {T: " three "}, {T: "four", I: true}, {T: " five"}}},
 			{K: "q", T: "quoted words"}, {K: "p", Runs: []Run{{T: "x", S: true}, {T: " and "}, {T: "y", C: true}}}, tbl}, O: def},
 		{Mode: "fixed", Blocks: []Block{{K: "h", Level: 2, T: "Sub"}, {K: "h", Level: 6, T: "Deep"}, {K: "p", Runs: []Run{{T: "only"}}}, tbl, tbl},
@@ -337,5 +376,34 @@ func fixedCases() []Case {
 		{Mode: "fixed", Blocks: []Block{{K: "p", Runs: []Run{{T: "before "}, {T: "both", B: true, I: true}}}, {K: "table", Cells: [][]string{{"h1", "h2"}, {"c", "d"}}},
 			{K: "li", T: "item"}, {K: "code", T: "a*b + c_d"}, {K: "code", T: "# not a heading"}, {K: "empty"}, {K: "h", Level: 7, T: "deep"}, {K: "p", Runs: []Run{{T: "after"}}}},
 			O: Opts{GFM: true, Bullet: "*", Emph: "*", MaxLen: 80, Meta: true}},
+		{Mode: "fixed", Blocks: hostileDoc(true), O: def},
+		{Mode: "fixed", Blocks: hostileDoc(false), O: Opts{GFM: true, Setext: true, Bullet: "*", Emph: "_", Wrap: true, MaxLen: 10}},
+		{Mode: "fixed", Blocks: hostileDoc(false), O: Opts{GFM: true, Setext: true, Bullet: "+", Emph: "*", Wrap: true, MaxLen: 1}},
 	}
+	if os.Getenv("C20_NOHOSTILEDOC") != "" { // development aid: sensitivity of the generated search alone
+		cs = cs[:4]
+	}
+	return cs
+}
+
+// hostileDoc: every class of Markdown syntax as text of every kind of block. Only with longTicks there are code-font
+// runs with a blank, with two backticks in a row or with a backtick first (wrapped code spans are an open finding
+// for these).
+func hostileDoc(longTicks bool) []Block {
+	inline := "*a* _b_ **c** __d__ `e` ``f`` [g](h) ![i](j) [k] [^1] <b> </b> <!-- c --> <x@y.z> &amp; &#35; &copy; & \\ a\\*b \\_ ~~l~~ ~m~ $n$ $$ a|b | snake_case 2*3 a*b*c !! #tag www.example.com http://a.b/c"
+	var bs []Block
+	bs = append(bs, Block{K: "h", Level: 1, T: "1. " + inline}, Block{K: "h", Level: 2, T: "# h #"}, Block{K: "h", Level: 3, T: "- x"}, Block{K: "h", Level: 2, T: "==="})
+	bs = append(bs, Block{K: "p", Runs: []Run{{T: inline + " "}, {T: "# - + 1. 2) > = === --- *** ___ ~~~ ``` | :-: <div> [a]: u", B: true}, {T: " "}, {T: inline, I: true}, {T: " "}, {T: inline, S: true}, {T: " end."}}})
+	for _, w := range []string{"#", "##", "# h", "-", "- x", "+", "+ x", "*", "* x", "1.", "1. x", "2) y", "=", "===", "---", "- - -", "***", "___", ">", "> q", "```", "``` go", "~~~", "<div>", "<!-- c -->", "[a]: u", "[ ] todo", "| a | b |", "|---|---|", ":-:", "a | b", "--- | ---", "$$", "\\", "&amp;"} {
+		bs = append(bs, Block{K: "p", Runs: []Run{{T: w}}}, Block{K: "li", T: w}, Block{K: "q", T: w})
+	}
+	bs = append(bs, Block{K: "p", Runs: []Run{{T: "    four blanks first"}}})
+	bs = append(bs, Block{K: "li", Ord: true, T: "1. " + inline}, Block{K: "q", T: "> " + inline})
+	bs = append(bs, Block{K: "table", HdrBold: true, Cells: [][]string{{"a|b", "*x*", "|"}, {"\\|", "`c` | d", "x\\"}, {"&amp; <b>", "# - 1.", inline}, {"", "---", ":-:"}}})
+	bs = append(bs, Block{K: "code", T: "``` fence"}, Block{K: "code", T: "~~~"}, Block{K: "code", T: "a ```` b"}, Block{K: "code", T: inline}, Block{K: "code", T: "`"})
+	bs = append(bs, Block{K: "p", Runs: []Run{{T: "see "}, {T: "a`b", C: true}, {T: " and "}, {T: "x`y`z", C: true, S: true}, {T: " and "}, {T: "*not*_em_\\<b>&amp;[l](m)|$#", C: true}, {T: " end"}}})
+	if longTicks {
+		bs = append(bs, Block{K: "p", Runs: []Run{{T: "see "}, {T: "`", C: true, S: true}, {T: " and "}, {T: "`x`", C: true}, {T: " and "}, {T: "``", C: true}, {T: " and "}, {T: "```", C: true, B: true}, {T: " and "}, {T: "a``b ` c", C: true}, {T: " end"}}})
+	}
+	return bs
 }
